@@ -19,7 +19,6 @@ Proof.
   unfold model_sobs, P_C18.
   rewrite !map_length, combine_length, Hlen, Nat.min_id, !Nat.eqb_refl. cbn [andb].
   repeat (apply andb_true_iff; split).
-  - apply forallb_combine_map_S. intros t _. cbn [fst snd]. apply val_eqb_refl.
   - apply forallb_combine_map_S. intros [[u b] r] _. cbn [fst snd]. apply val_eqb_refl.
   - apply forallb_combine_map_S. intros h _. rewrite negotiate_spec. apply val_eqb_refl.
 Qed.
